@@ -23,6 +23,9 @@ type Decoder struct {
 	indexVolume volume
 
 	fileData [][]byte
+	// The file entry for each element of fileData, i.e. the
+	// entries that are saved in the volume set.
+	fileDataEntries []fileEntry
 
 	shardByteCount int
 	parityData     [][]byte
@@ -97,7 +100,7 @@ func newDecoder(fileIO fileIO, delegate DecoderDelegate, indexFile string) (*Dec
 	return &Decoder{
 		fileIO, delegate,
 		indexFile, indexVolume,
-		nil,
+		nil, nil,
 		0, nil,
 	}, nil
 }
@@ -128,6 +131,7 @@ func (d *Decoder) getFilePath(entry fileEntry) (string, error) {
 // LoadFileData loads existing file data into memory.
 func (d *Decoder) LoadFileData() error {
 	fileData := make([][]byte, 0, len(d.indexVolume.entries))
+	fileDataEntries := make([]fileEntry, 0, len(d.indexVolume.entries))
 
 	for i, entry := range d.indexVolume.entries {
 		if !entry.header.Status.savedInVolumeSet() {
@@ -155,6 +159,7 @@ func (d *Decoder) LoadFileData() error {
 		d.delegate.OnDataFileLoad(i+1, len(d.indexVolume.entries), path, len(data), corrupt, err)
 		if corrupt {
 			fileData = append(fileData, nil)
+			fileDataEntries = append(fileDataEntries, entry)
 			continue
 		} else if err != nil {
 			return err
@@ -167,6 +172,7 @@ func (d *Decoder) LoadFileData() error {
 			data = make([]byte, 0)
 		}
 		fileData = append(fileData, data)
+		fileDataEntries = append(fileDataEntries, entry)
 	}
 
 	if len(fileData) == 0 {
@@ -174,6 +180,7 @@ func (d *Decoder) LoadFileData() error {
 	}
 
 	d.fileData = fileData
+	d.fileDataEntries = fileDataEntries
 	return nil
 }
 
@@ -413,7 +420,7 @@ func (d *Decoder) Repair(checkParity bool) ([]string, error) {
 			continue
 		}
 
-		entry := d.indexVolume.entries[i]
+		entry := d.fileDataEntries[i]
 		data = shards[i][:entry.header.FileBytes]
 		if sixteenKHash(data) != entry.header.SixteenKHash {
 			return repairedPaths, errors.New("hash mismatch (16k) in reconstructed data")
